@@ -8,7 +8,7 @@ export GOFLAGS=-mod=mod GOPROXY=off GOSUMDB=off GOTOOLCHAIN=local
 [ -x "$BIN" ] || "$HERE/check" build >/dev/null || exit 2
 T="$(mktemp -d)"; trap 'rm -rf "$T"' EXIT
 # private copies: the run takes a while and must not see a checker rebuilt (or tables regenerated) half-way
-cp "$BIN" "$T/lkcheck"; BIN="$T/lkcheck"; mkdir -p "$T/base"; cp "$HERE/known_findings.json" "$HERE/names.json" "$HERE/errors.json" "$T/base/"; HERE_TABLES="$T/base"
+cp "$BIN" "$T/lkcheck"; BIN="$T/lkcheck"; mkdir -p "$T/base"; cp "$HERE/known_findings.json" "$HERE/names.json" "$HERE/errors.json" "$HERE/properties.jsonl" "$T/base/"; HERE_TABLES="$T/base"
 bad=0
 sel=("$@"); [ ${#sel[@]} -eq 0 ] && sel=($(ls "$HERE/benign"))
 for n in "${sel[@]}"; do
@@ -20,7 +20,7 @@ for n in "${sel[@]}"; do
   if ! (cd "$w" && patch -p1 -s -f --no-backup-if-mismatch < "$d/patch.diff" >/dev/null 2>&1); then echo "$n stale (does not apply)"; continue; fi
   alarms=""
   for i in 01 02 03 04 05 06 07 08 09 10 11 12 13 14 15 16 17 18 19 20; do echo C$i; done | \
-    xargs -P 10 -I{} sh -c "mkdir -p $w/v{}; cp $HERE_TABLES/*.json $w/v{}/; $BIN -prop {} -repo $REPO -verif $w/v{} -overlay '${ov#:}' > $w/{}.out 2>&1; echo \$? > $w/{}.rc"
+    xargs -P 10 -I{} sh -c "mkdir -p $w/v{}; cp $HERE_TABLES/* $w/v{}/; $BIN -prop {} -repo $REPO -verif $w/v{} -overlay '${ov#:}' > $w/{}.out 2>&1; echo \$? > $w/{}.rc"
   for i in 01 02 03 04 05 06 07 08 09 10 11 12 13 14 15 16 17 18 19 20; do
     if [ "$(cat $w/C$i.rc)" != 0 ]; then alarms="$alarms C$i"; grep -B1 '^VIOLATION' "$w/C$i.out" | grep -v '^VIOLATION\|^--' | cut -c1-220 | head -3 | sed "s/^/    /" > "$w/C$i.msg"; fi
   done
